@@ -1412,9 +1412,6 @@ func (g *gen) writeSizeofSignature(b *buffer, n *a.Struct) error {
 }
 
 func (g *gen) writeInitializerPrototype(b *buffer, n *a.Struct) error {
-	if !n.Classy() {
-		return nil
-	}
 	if err := g.writeInitializerSignature(b, n, n.Public()); err != nil {
 		return err
 	}
@@ -1430,9 +1427,11 @@ func (g *gen) writeInitializerPrototype(b *buffer, n *a.Struct) error {
 }
 
 func (g *gen) writeInitializerImpl(b *buffer, n *a.Struct) error {
-	if !n.Classy() {
-		return nil
-	}
+	// Every struct has an initializer, also one declared without a question
+	// mark (not n.Classy()). That one has no magic value (and no public
+	// methods, coroutines, choosy methods or vtables: lang/check rejects
+	// them), but its fields still have to be zeroed and its sub-structs
+	// initialized when it is a field of another struct or is reset.
 	if err := g.writeInitializerSignature(b, n, n.Public()); err != nil {
 		return err
 	}
@@ -1450,18 +1449,22 @@ func (g *gen) writeInitializerImpl(b *buffer, n *a.Struct) error {
 	b.writes("}\n\n")
 
 	b.writes("if ((options & WUFFS_INITIALIZE__ALREADY_ZEROED) != 0) {\n")
-	b.writes("  // The whole point of this if-check is to detect an uninitialized *self.\n")
-	b.writes("  // We disable the warning on GCC. Clang-5.0 does not have this warning.\n")
-	b.writes("  #if !defined(__clang__) && defined(__GNUC__)\n")
-	b.writes("  #pragma GCC diagnostic push\n")
-	b.writes("  #pragma GCC diagnostic ignored \"-Wmaybe-uninitialized\"\n")
-	b.writes("  #endif\n")
-	b.writes("  if (self->private_impl.magic != 0) {\n")
-	b.writes("    return wuffs_base__make_status(wuffs_base__error__initialize_falsely_claimed_already_zeroed);\n")
-	b.writes("  }\n")
-	b.writes("  #if !defined(__clang__) && defined(__GNUC__)\n")
-	b.writes("  #pragma GCC diagnostic pop\n")
-	b.writes("  #endif\n")
+	if n.Classy() {
+		b.writes("  // The whole point of this if-check is to detect an uninitialized *self.\n")
+		b.writes("  // We disable the warning on GCC. Clang-5.0 does not have this warning.\n")
+		b.writes("  #if !defined(__clang__) && defined(__GNUC__)\n")
+		b.writes("  #pragma GCC diagnostic push\n")
+		b.writes("  #pragma GCC diagnostic ignored \"-Wmaybe-uninitialized\"\n")
+		b.writes("  #endif\n")
+		b.writes("  if (self->private_impl.magic != 0) {\n")
+		b.writes("    return wuffs_base__make_status(wuffs_base__error__initialize_falsely_claimed_already_zeroed);\n")
+		b.writes("  }\n")
+		b.writes("  #if !defined(__clang__) && defined(__GNUC__)\n")
+		b.writes("  #pragma GCC diagnostic pop\n")
+		b.writes("  #endif\n")
+	} else {
+		b.writes("  // No-op. There is no magic value to detect an uninitialized *self with.\n")
+	}
 	b.writes("} else {\n")
 	b.writes("  if ((options & WUFFS_INITIALIZE__LEAVE_INTERNAL_BUFFERS_UNINITIALIZED) == 0) {\n")
 	b.writes("    memset(self, 0, sizeof(*self));\n")
@@ -1513,15 +1516,23 @@ func (g *gen) writeInitializerImpl(b *buffer, n *a.Struct) error {
 			continue
 		}
 
+		// A field whose type is a struct of this package is in private_impl
+		// unless it is declared in the second field list.
+		member := "private_impl"
+		if f.PrivateData() {
+			member = "private_data"
+		}
 		b.printf("{\n")
 		b.printf("wuffs_base__status z = %s%s__initialize(\n"+
-			"&self->private_data.%s%s, sizeof(self->private_data.%s%s), WUFFS_VERSION, options);\n",
-			prefix, qid[1].Str(g.tm), fPrefix, f.Name().Str(g.tm), fPrefix, f.Name().Str(g.tm))
+			"&self->%s.%s%s, sizeof(self->%s.%s%s), WUFFS_VERSION, options);\n",
+			prefix, qid[1].Str(g.tm), member, fPrefix, f.Name().Str(g.tm), member, fPrefix, f.Name().Str(g.tm))
 		b.printf("if (z.repr) {\nreturn z;\n}\n")
 		b.printf("}\n")
 	}
 
-	b.writes("self->private_impl.magic = WUFFS_BASE__MAGIC;\n")
+	if n.Classy() {
+		b.writes("self->private_impl.magic = WUFFS_BASE__MAGIC;\n")
+	}
 	for _, impl := range n.Implements() {
 		qid := impl.AsTypeExpr().QID()
 		iName := fmt.Sprintf("wuffs_%s__%s", qid[0].Str(g.tm), qid[1].Str(g.tm))
